@@ -1,2 +1,72 @@
-(* C09: statements only; theorems are added as the model of the anchored mechanism is proved *)
-From GGRS Require Import Base.
+(* C09 — desync detection raises no false alarm and catches real divergence.
+   Statements only.  Model: coq/Desync.v - check_checksum_send_interval and
+   compare_local_checksums_against_peers of src/sessions/p2p_session.rs as functions of what they read
+   (the sync layer's last confirmed frame L and its saved cells) and keep (local_checksum_history,
+   last_sent_checksum_frame, every remote endpoint's pending_checksums; the endpoint's
+   on_checksum_report is Endpoint.v's).  Tied to the code by the `desync` correspondence level: a real
+   P2PSession with puppet peers; at every advance_frame the harness records through the hook accessor
+   what the detection read and did, and the extracted model, fed the same readings, must agree.
+   [truth f] = the checksum of the correct state of frame f: what a deterministic game saves for f once
+   every input before f is the real one. *)
+From GGRS Require Import Base Consts Endpoint Desync DesyncProofs.
+From GGRS Require Import Queue QueueProofs Sync P2P Session SessionProofs SessionProgress SessionTimeline.
+Open Scope Z_scope.
+
+(* NO FALSE ALARM, for every run of reports and advance_frame calls in any order: if every checksum that
+   enters is the true checksum of its frame - the peers' reports, and the saved cells of frames <= L a
+   report of ours may be taken from - then no DesyncDetected is ever raised, whatever the interval, the
+   number of peers, lost / repeated / reordered reports, sparse saving, or how L moves. *)
+Theorem C09_no_false_alarm :
+  forall (truth : Z -> Z) (ops : list dop) (s s' : ds) (evs : list (Z * Z * Z * Z)),
+  Inv truth s -> 0 <= interval_i32 s -> Forall (op_truthful truth) ops ->
+  ds_run s ops = Ok (s', evs) -> evs = [] /\ Inv truth s'.
+Proof. exact no_false_alarm. Qed.
+
+(* the premise about our own cells is C01 on saved states: in every state reachable inside C01's space
+   the state saved for a confirmed frame F (inside the saved-state window) is the serial replay of the
+   inputs held for the frames before F, for every player - so its checksum is [truth F] on every peer
+   holding the same inputs.  This is why the detection must read L before the current call's rollback
+   (the comment in advance_frame): a frame above L may still hold a mispredicted state. *)
+Theorem C09_confirmed_saved_states_are_replays :
+  forall (predict : Z -> Z), (forall x, predict (predict x) = predict x) -> predict 0 = 0 ->
+  forall (ops : list sop) (n w d : Z) (kinds : list pkind) (eps : list (list Z)) (p : p2p) (outs : list (pout * apires)),
+  1 <= w -> 0 <= d -> w + d + 3 <= INPUT_QUEUE_LENGTH -> 0 < n -> Z.of_nat (length kinds) = n -> players_only kinds ->
+  srun_in predict (session_start n w false d kinds eps 0) ops = Ok (p, outs) ->
+  exists g gs, exec_outs w (game0 w) outs = Some g /\ QS w d p gs /\
+    forall F, Z.max 0 (s_current (ps_sync p) - w) <= F <= s_current (ps_sync p) - 1 -> F <= s_last_confirmed (ps_sync p) ->
+      exists H, nth (Z.to_nat (F mod (w + 1))) (g_cells g) (NULL, []) = (F, H) /\ cell_frame (ps_sync p) F = F /\
+        forall h hist low f, nth_error gs h = Some (hist, low) -> 0 <= f < F -> gvalL H f h = hval hist f.
+Proof. exact confirmed_saved_states_are_replays. Qed.
+
+(* what we report is a saved cell's checksum for a frame 0 <= f <= L, recorded in the history *)
+Theorem C09_report_is_a_confirmed_saved_state :
+  forall (truth : Z -> Z) (L : Z) (cells : list cell) (s s' : ds) (f cs : Z),
+  send_interval L cells s = Ok (s', Some (f, cs)) -> cells_truthful truth L cells -> Inv truth s -> 0 <= interval_i32 s ->
+  cs = truth f /\ 0 <= f <= L /\ ds_last_sent s' = f /\ alookup f (ds_hist s') = Some cs /\ In (f, Some cs) cells.
+Proof.
+  intros truth L cells s s' f cs E Hc HI Hiv.
+  destruct (send_interval_inv truth L cells s s' _ E Hc HI Hiv) as (_ & A & _). exact (A f cs eq_refl).
+Qed.
+
+(* DETECTION, exactly: a comparison raises DesyncDetected(ep, f, local, remote) if and only if endpoint
+   ep's pending map holds checksum `remote` for a frame f below the last confirmed frame, the local
+   history holds `local` for f, and the two differ.  So a peer whose state diverged at or before a
+   frame we both report is flagged at the first call that has confirmed that frame - never earlier,
+   never for equal checksums. *)
+Theorem C09_compare_reports_exactly :
+  forall (L : Z) (s : ds) (ep f lc rc : Z),
+  In (ep, f, lc, rc) (snd (compare L s)) <->
+  (exists pend, nth_error (ds_pending s) (Z.to_nat ep) = Some pend /\ 0 <= ep /\
+                In (f, rc) pend /\ f < L /\ alookup f (ds_hist s) = Some lc /\ lc <> rc).
+Proof. exact compare_reports_exactly. Qed.
+
+(* non-vacuity: interval 2, one peer; the peer's (wrong) report 77 for frame 2 is flagged when frame 2 is
+   below the last confirmed frame - the run of the harness example, on the model *)
+Example C09_demo :
+  exists s evs, ds_run (ds_new 2 1)
+     [DAdvance 1 [(0, Some 2); (1, Some 1001); (2, Some 2001); (NULL, None); (NULL, None)];
+      DReport 0 2 77;
+      DAdvance 2 [(0, Some 2); (1, Some 1001); (2, Some 2001); (3, Some 3001); (NULL, None)];
+      DAdvance 3 [(0, Some 2); (1, Some 1001); (2, Some 2001); (3, Some 3001); (4, Some 4001)]] = Ok (s, evs) /\
+    evs = [(0, 2, 2001, 77)] /\ ds_hist s = [(2, 2001)].
+Proof. eexists. eexists. split; [vm_compute; reflexivity|]. split; reflexivity. Qed.
